@@ -1,6 +1,6 @@
 (* C12 — Receive Maximum flow control.  Statements only; proofs in Conn/IdsQuota.v.
    Nothing else may be added to this file. *)
-From MQ Require Import Base.Prelude Conn.Types Conn.ConnRecord Conn.Step Corr.ConnTrace Conn.IdsQuota Conn.Run Conn.Own Conn.OwnStep Conn.Witness Conn.PairQos Conn.PairQos5 Conn.PairSeq Conn.PairSeq5 Conn.PairConc Conn.PairConc5.
+From MQ Require Import Base.Prelude Conn.Types Conn.ConnRecord Conn.Step Corr.ConnTrace Conn.IdsQuota Conn.Run Conn.Own Conn.OwnStep Conn.Witness Conn.PairQos Conn.PairQos5 Conn.PairSeq Conn.PairSeq5 Conn.PairConc Conn.PairConc5 Conn.PairBi Conn.PairBi5.
 
 (* the reported vacancy is M minus the count, saturating at zero: it never wraps or panics, for every
    M and every count *)
@@ -58,6 +58,16 @@ Theorem C12_counter_is_exchanges_in_flight : forall gs gr l s,
                 (forall m, c_send_max (cs s1) = Some m -> c_send_count (cs s1) = flight s1).
 Proof. exact concurrent5_exactly_once. Qed.
 Print Assumptions C12_counter_is_exchanges_in_flight.
+
+(* the same with both sides publishing at once (Conn/PairBi5.v): in every state of every two-way schedule each side's counter
+   is the number of its own exchanges in flight and within the other side's announced Receive Maximum *)
+Theorem C12_two_way_counters : forall gA gB l s,
+  inv25 gA gB s -> Forall good_act25 l ->
+  exists s', run_sched25 gA gB s l = Some s' /\
+    (forall m, c_send_max (ea s') = Some m -> c_send_count (ea s') = flight (vAB s') /\ flight (vAB s') <= m) /\
+    (forall m, c_send_max (eb s') = Some m -> c_send_count (eb s') = flight (vBA s') /\ flight (vBA s') <= m).
+Proof. exact two_way5_counters. Qed.
+Print Assumptions C12_two_way_counters.
 
 (* C12_partial: the invariant "publish_send_count = number of incomplete outbound QoS>0 exchanges of
    this connection, including retransmitted stored ones" over all histories is checked by the monitor
